@@ -446,6 +446,8 @@ def oracle_pstr(cases, impl, props):
             elif op[0] == 'copysl' and r == 'U' and plen is not None and 'C13' in props:
                 src = unhex(op[1]) if len(op) > 1 else b''
                 cur = src[:plen] + bytes(plen - len(src[:plen]))
+            elif op[0] == 'upper' and '!DEREF' in r and 'C13' in props:
+                bad = 'prefix: the &mut str of deref_mut() is not the text as_str() returns'
             elif op[0] == 'upper' and cur is not None:
                 cur = bytes(b - 32 if 97 <= b <= 122 else b for b in cur)
             elif op[0] == 'asstr' and r.startswith('O') and 'C13' in props:
@@ -584,7 +586,7 @@ def oracle_pod(cases, impl):
                     exp = 'P'
                 else:
                     inner = data[:sz]
-                    some = (inner != b'\xff' * 8) if sz == 8 else ((any(inner) and inner != b'\xff\xff') if sz == 2 else any(inner))
+                    some = True if sz == 0 else ((inner != b'\xff' * 8) if sz == 8 else ((any(inner) and inner != b'\xff\xff') if sz == 2 else any(inner)))
                     exp = 'TT' if some else 'FF'
                 if r != exp:
                     bad = 'pod: PodOption over %s gives %s, expected %s' % (data.hex(), r, exp)
